@@ -13,11 +13,15 @@
 (*                    the state of its peer's encrypter                    *)
 (*   Delivered        every header sent is recovered with the size and     *)
 (*                    opcode that were sent                                *)
+(*   ReconnectWorks   at any point of the traffic the client can reconnect   *)
+(*                    with the key it holds (any number of times: each      *)
+(*                    attempt is made against the challenge then on offer), *)
+(*                    and a proof for an earlier challenge is refused       *)
 (* A wrong-password client never gets that far (it is refused at login).   *)
 (***************************************************************************)
 EXTENDS Auth, Headers, FiniteSets
 
-CONSTANTS NNat, Keys, MaxHeaders
+CONSTANTS NNat, Keys, MaxHeaders, MaxReconnects
 
 MCSrvN == Pad(Nat2LE(NNat), 32)
 Key(n) == Pad(Nat2LE(n), 32)
@@ -28,25 +32,29 @@ P0 == <<80, 119, 49>>                \* "Pw1"
 Seeds == { <<0, 0, 0, 0>>, <<239, 190, 173, 222>> }
 Hdrs == { [size |-> 12, opcode |-> 494], [size |-> 40000, opcode |-> 65535] }   \* the second one is long on wrath
 
-VARIABLES phase, exp, sent, got, nh
-mvars == <<obj, out, half, hout, phase, exp, sent, got, nh>>
+VARIABLES phase, exp, sent, got, nh, rc
+mvars == <<obj, out, half, hout, phase, exp, sent, got, nh, rc>>
 
-Init == AuthInit /\ HInit /\ phase = 0 /\ exp = "none" /\ sent = <<>> /\ got = <<>> /\ nh = 0
+CData(n) == [i \in 1..16 |-> (n + i) % 256]
+NewChal(n) == [i \in 1..16 |-> (17 * n + 3 * i + 1) % 256]
+RcInit == [n |-> 0, pending |-> <<>>, stale |-> <<>>, last |-> "none"]
+
+Init == AuthInit /\ HInit /\ phase = 0 /\ exp = "none" /\ sent = <<>> /\ got = <<>> /\ nh = 0 /\ rc = RcInit
 
 Reg == /\ phase = 0 /\ Register("v", U0, P0, Salt0) /\ phase' = 1
-       /\ UNCHANGED <<half, hout, exp, sent, got, nh>>
+       /\ UNCHANGED <<half, hout, exp, sent, got, nh, rc>>
 Prf == /\ phase = 1 /\ \E b \in Keys : IntoProof("v", "p", Key(b))
        /\ phase' = IF out'.kind = "ok" THEN 2 ELSE 99
-       /\ UNCHANGED <<half, hout, exp, sent, got, nh>>
+       /\ UNCHANGED <<half, hout, exp, sent, got, nh, rc>>
 Cli == /\ phase = 2 /\ \E a \in Keys : ClientNew("c", U0, P0, SrvG, SrvN, obj["p"].B, obj["p"].salt, Key(a))
        /\ phase' = IF out'.kind = "ok" THEN 3 ELSE 99
-       /\ UNCHANGED <<half, hout, exp, sent, got, nh>>
+       /\ UNCHANGED <<half, hout, exp, sent, got, nh, rc>>
 Srv == /\ phase = 3 /\ IntoServer("p", "s", obj["c"].A, obj["c"].m1, Chal)
        /\ phase' = IF out'.kind = "ok" THEN 4 ELSE 98
-       /\ UNCHANGED <<half, hout, exp, sent, got, nh>>
+       /\ UNCHANGED <<half, hout, exp, sent, got, nh, rc>>
 Vsp == /\ phase = 4 /\ VerifyServerProof("c", "k", out.M2)
        /\ phase' = IF out'.kind = "ok" THEN 5 ELSE 98
-       /\ UNCHANGED <<half, hout, exp, sent, got, nh>>
+       /\ UNCHANGED <<half, hout, exp, sent, got, nh, rc>>
 
 \* world login: the client proves knowledge of ITS key, the server checks against ITS key
 WorldC == /\ phase = 5
@@ -54,11 +62,11 @@ WorldC == /\ phase = 5
                 /\ WorldClient("ce", "cd", e, obj["k"].U, obj["k"].K, cs, ss)
                 /\ exp' = e
                 /\ sent' = <<cs, ss>>
-          /\ phase' = 6 /\ UNCHANGED <<obj, out, got, nh>>
+          /\ phase' = 6 /\ UNCHANGED <<obj, out, got, nh, rc>>
 WorldS == /\ phase = 6
           /\ WorldServer("se", "sd", exp, obj["s"].U, obj["s"].K, hout.proof, sent[2], sent[1])
           /\ phase' = IF hout'.kind = "ok" THEN 7 ELSE 97
-          /\ sent' = <<>> /\ UNCHANGED <<obj, out, exp, got, nh>>
+          /\ sent' = <<>> /\ UNCHANGED <<obj, out, exp, got, nh, rc>>
 
 \* header traffic: server -> client and client -> server
 S2Cstep ==
@@ -74,7 +82,7 @@ S2Cstep ==
                    ELSE LET r == Apply(half["cd"], e[1]) IN <<ParseServer(r[1]), r[2]>>
          IN /\ half' = [half EXCEPT !["se"] = e[2], !["cd"] = d[2]]
             /\ sent' = hs /\ got' = d[1]
-    /\ nh' = nh + 1 /\ UNCHANGED <<obj, out, hout, phase, exp>>
+    /\ nh' = nh + 1 /\ UNCHANGED <<obj, out, hout, phase, exp, rc>>
 C2Sstep ==
     /\ phase = 7 /\ nh < MaxHeaders
     /\ \E h \in Hdrs :
@@ -84,9 +92,27 @@ C2Sstep ==
              r  == Apply(half["sd"], e[1])
          IN /\ half' = [half EXCEPT !["ce"] = e[2], !["sd"] = r[2]]
             /\ sent' = hc /\ got' = ParseClient(r[1])
-    /\ nh' = nh + 1 /\ UNCHANGED <<obj, out, hout, phase, exp>>
+    /\ nh' = nh + 1 /\ UNCHANGED <<obj, out, hout, phase, exp, rc>>
 
-Next == Reg \/ Prf \/ Cli \/ Srv \/ Vsp \/ WorldC \/ WorldS \/ S2Cstep \/ C2Sstep
+\* reconnect in the middle of the traffic: the client computes its values for the challenge on offer, the server
+\* verifies (and replaces the challenge); the pair is then tried once more against the new challenge
+RcValues ==
+    /\ phase = 7 /\ rc.n < MaxReconnects /\ rc.pending = <<>>
+    /\ ReconnectValues("k", obj["s"].chal, CData(rc.n))
+    /\ rc' = [rc EXCEPT !.pending = <<out'.cchal, out'.proof>>]
+    /\ UNCHANGED <<half, hout, phase, exp, sent, got, nh>>
+RcVerify ==
+    /\ phase = 7 /\ rc.pending # <<>>
+    /\ VerifyReconnect("s", rc.pending[1], rc.pending[2], NewChal(rc.n))
+    /\ rc' = [n |-> rc.n + 1, pending |-> <<>>, stale |-> rc.pending, last |-> IF out'.ok THEN "accepted" ELSE "REFUSED"]
+    /\ UNCHANGED <<half, hout, phase, exp, sent, got, nh>>
+RcReplay ==
+    /\ phase = 7 /\ rc.pending = <<>> /\ rc.stale # <<>>
+    /\ VerifyReconnect("s", rc.stale[1], rc.stale[2], NewChal(rc.n + 100))
+    /\ rc' = [rc EXCEPT !.stale = <<>>, !.last = IF out'.ok THEN "REPLAY-ACCEPTED" ELSE "replay-refused"]
+    /\ UNCHANGED <<half, hout, phase, exp, sent, got, nh>>
+
+Next == Reg \/ Prf \/ Cli \/ Srv \/ Vsp \/ WorldC \/ WorldS \/ S2Cstep \/ C2Sstep \/ RcValues \/ RcVerify \/ RcReplay
 Spec == Init /\ [][Next]_mvars
 
 ---------------------------------------------------------------------------
@@ -94,5 +120,6 @@ LoginThenWorld == phase # 97 /\ phase # 98          \* an honest exchange is nev
 InStep == phase = 7 => (half["ce"].st = half["sd"].st /\ half["se"].st = half["cd"].st)
 Delivered == (phase = 7 /\ nh > 0) => got = sent
 SameKey == phase >= 5 /\ phase <= 7 => obj["s"].K = obj["k"].K
-Inv == TypeOK /\ Total /\ HTypeOK /\ LoginThenWorld /\ InStep /\ Delivered /\ SameKey
+ReconnectWorks == rc.last \in {"none", "accepted", "replay-refused"}
+Inv == TypeOK /\ Total /\ HTypeOK /\ LoginThenWorld /\ InStep /\ Delivered /\ SameKey /\ ReconnectWorks
 =============================================================================
